@@ -442,7 +442,10 @@ fn built_hd_quiet(t: &mh::EndHeaderTag) -> Built {
 fn boxed(ctx: &mut Ctx) {
     let maxn = if ctx.quick() { 24 } else { 40 };
     let content = |n: usize, salt: usize| -> Vec<u8> { (0..n).map(|i| marker(i, salt)).collect() };
-    for n in 0..=maxn {
+    // every length up to maxn, then the lengths around the width boundaries of 8- and 16-bit counters
+    let mut lens: Vec<usize> = (0..=maxn).collect();
+    lens.extend([254, 255, 256, 257, 4095, 4096, 4097, 65534, 65535, 65536, 65537]);
+    for n in lens {
         // strings (text rules are C17's; here: every padding residue)
         for (name, kind) in [("CommandLineTag::new", bi::CMDLINE), ("BootLoaderNameTag::new", bi::BOOTLOADER)] {
             leaf!(ctx, name, format!("text of {} bytes", n), |ctx| {
@@ -506,7 +509,7 @@ fn boxed(ctx: &mut Ctx) {
         });
     }
     // memory maps
-    for n in 0..=4usize {
+    for n in [0usize, 1, 2, 3, 4, 10, 11, 255, 256, 257] {
         leaf!(ctx, "MemoryMapTag::new", format!("{} areas", n), |ctx| {
             let types = [MemoryAreaType::Available, MemoryAreaType::Reserved, MemoryAreaType::AcpiAvailable, MemoryAreaType::ReservedHibernate, MemoryAreaType::Defective, MemoryAreaType::Custom(0xC1C2_C3C4)];
             let nums = [1u32, 2, 3, 4, 5, 0xC1C2_C3C4];
@@ -531,12 +534,12 @@ fn boxed(ctx: &mut Ctx) {
     }
     // framebuffer: three colour-info variants, palette lengths 0..=8
     for a in tuples(&[8, 4, 4, 4, 1]) {
-        for variant in 0..(2 + 9) {
+        for variant in (0..(2 + 9)).chain([2 + 254, 2 + 255, 2 + 256, 2 + 257, 2 + 1000, 2 + 65535]) {
             if variant > 3 && a != tuples(&[8, 4, 4, 4, 1])[0] {
                 continue;
             }
             leaf!(ctx, "FramebufferTag::new", format!("{:x?} variant {}", a, variant), |ctx| {
-                let pal: Vec<FramebufferColor> = (0..variant.max(2) - 2).map(|i| FramebufferColor { red: 0x91 + i as u8, green: 0xA1 + i as u8, blue: 0xB1 + i as u8 }).collect();
+                let pal: Vec<FramebufferColor> = (0..variant.max(2) - 2).map(|i| FramebufferColor { red: (0x91 + i) as u8, green: (0xA1 + i * 3) as u8, blue: (0xB1 + i * 7) as u8 }).collect();
                 let (ty, typ_byte, info): (FramebufferType, u8, Vec<u8>) = match variant {
                     0 => (FramebufferType::Text, 2, vec![]),
                     1 => (FramebufferType::RGB { red: FramebufferField { position: 0xE1, size: 0xE2 }, green: FramebufferField { position: 0xE3, size: 0xE4 }, blue: FramebufferField { position: 0xE5, size: 0xE6 } }, 1, vec![0xE1, 0xE2, 0xE3, 0xE4, 0xE5, 0xE6]),
@@ -550,7 +553,7 @@ fn boxed(ctx: &mut Ctx) {
     }
     // information request (header crate)
     for fi in 0..2u16 {
-        for n in 0..=maxn {
+        for n in (0..=maxn).chain([255, 256, 257, 16383, 16384]) {
             leaf!(ctx, "InformationRequestHeaderTag::new", format!("flags={} {} requests", fi, n), |ctx| {
                 let fl = if fi == 0 { mh::HeaderTagFlag::Required } else { mh::HeaderTagFlag::Optional };
                 let nums: Vec<u32> = (0..n as u32).map(|i| if i % 3 == 0 { i } else { 0x8182_0000 + i }).collect();
@@ -594,7 +597,7 @@ fn boxed(ctx: &mut Ctx) {
 fn run(ctx: &mut Ctx) {
     let arena = Arena::new(1);
     ctx.bound("sized", "every sized constructor of both crates: a marker argument tuple, {0,1,MAX,MAX-1,0x80..} per argument, every single-byte perturbation of every argument with {00,01,02,04,08,10,20,40,80,FF}; enumerated arguments over all variants; as_bytes() at every address residue the type's alignment permits");
-    ctx.bound("boxed_bound", "heap constructors: content lengths 0..=24 (quick) / 0..=40 (every padding residue at least three times), 0..=4 memory areas / EFI descriptors, three framebuffer colour-info variants with palettes of 0..=8 colours, 0..=24 information requests");
+    ctx.bound("boxed_bound", "heap constructors: content lengths 0..=24 (quick) / 0..=40 (every padding residue at least three times) and the lengths around 8- and 16-bit counter boundaries (254..257, 4095..4097, 65534..65537); 0..=4, 10, 11, 255..257 memory areas / EFI descriptors; three framebuffer colour-info variants with palettes of 0..=8, 254..257, 1000 and 65535 colours; 0..=24, 255..257, 16383, 16384 information requests");
     sized_boot(ctx, &arena);
     sized_header(ctx, &arena);
     boxed(ctx);
